@@ -131,6 +131,10 @@ int32_t jls_buf_string_save(struct jls_buf_s * self, const char * cstr_in, char 
     size_t sz = strlen(cstr_in) + 1;
     struct jls_buf_strings_s * s = self->strings_tail;
     char * buf_end = s->buffer + sizeof(s->buffer) - 1;
+    if (sz > (sizeof(s->buffer) - 1)) {
+        JLS_LOGE("string too long: %zu bytes", sz);
+        return JLS_ERROR_TOO_BIG;  // does not fit in any string block
+    }
     if ((size_t) (buf_end - s->cur) < sz) {
         ROE(strings_alloc(self));
         s = self->strings_tail;
